@@ -174,10 +174,11 @@ type plan struct {
 	scale    float64
 	containsOnly bool // loop/polygon: only point containment, so nothing else builds the index first
 	shareOpts    bool // index: every goroutine's EdgeQuery is built from one shared options value
+	manyLoops    bool // polygon: more than 12 loops
 }
 
 func (pl *plan) describe() any {
-	return map[string]any{"object": pl.obj, "goroutines": pl.nG, "prebuilt": pl.prebuilt, "contains_only": pl.containsOnly, "shared_edge_query_options": pl.shareOpts, "queries_per_goroutine": len(pl.queries[0]), "hold": pl.hold, "yields": pl.yields}
+	return map[string]any{"object": pl.obj, "goroutines": pl.nG, "prebuilt": pl.prebuilt, "contains_only": pl.containsOnly, "polygon_loops": len(pl.rings), "shared_edge_query_options": pl.shareOpts, "queries_per_goroutine": len(pl.queries[0]), "hold": pl.hold, "yields": pl.yields}
 }
 
 var points = []string{"index.beforeStatusLoad", "index.beforeLock", "index.beforeStatusStore", "index.beforeUnlock"}
@@ -195,6 +196,11 @@ func genPlan(r *rand.Rand) *plan {
 	in := gen.StarLoop(r, gen.Near(r, pl.center, sp.RMin*0.3*r.Float64()), 33+r.Intn(40), sp.RMin*0.2, sp.RMin*0.5)
 	pl.other = in.Vs
 	pl.rings = [][]s2.Point{sp.Vs, in.Vs}
+	if pl.obj == "polygon" && r.Intn(3) == 0 { // a polygon of 13..20 loops (its edge lookups use the cumulative-edge table)
+		pl.rings = gen.Islands(r, pl.center, math.Min(pl.scale, 0.5), 13+r.Intn(8))
+		pl.vs = pl.rings[0]
+		pl.manyLoops = true
+	}
 	if pl.obj == "index" {
 		k := 2 + r.Intn(4)
 		for i := 0; i < k; i++ {
@@ -266,7 +272,11 @@ func (pl *plan) build() *world {
 	case "loop":
 		w.loop, w.other = s2.LoopFromPoints(cp(pl.vs)), s2.LoopFromPoints(cp(pl.other))
 	case "polygon":
-		w.poly = s2.PolygonFromLoops([]*s2.Loop{s2.LoopFromPoints(cp(pl.rings[0])), s2.LoopFromPoints(cp(pl.rings[1]))})
+		var ls []*s2.Loop
+		for _, rg := range pl.rings {
+			ls = append(ls, s2.LoopFromPoints(cp(rg)))
+		}
+		w.poly = s2.PolygonFromLoops(ls)
 		w.opoly = s2.PolygonFromLoops([]*s2.Loop{s2.LoopFromPoints(cp(pl.other))})
 	default:
 		w.idx = s2.NewShapeIndex()
